@@ -42,6 +42,7 @@ Definition sp_op (fs : list val) (un : bytes) (op : eop) : bytes :=
       flat_map (fun x => spec_ld num (fst (R idx (opt_of_msg x)))) (as_list (slot_get fs slot))
   | EMsgPresent slot num idx =>
       match fst (R idx (opt_of_msg (slot_get fs slot))) with [] => [] | p => spec_ld num p end
+  | EMsgAlwaysVal slot num idx => spec_ld num (fst (R idx (opt_of_msg (slot_get fs slot))))
   | EEnum always slot num => sp_scalar KInt32 always num (slot_get fs slot)
   | ERepEnum slot num =>
       match as_list (slot_get fs slot) with
@@ -60,6 +61,8 @@ Definition sp_op (fs : list val) (un : bytes) (op : eop) : bytes :=
       | VOpt (Some x), EEnum always _ num => sp_scalar KInt32 always num x
       | VOpt (Some x), ECast c _ _ _ num => sp_cast_elem c num x
       | VMsg (Some m), EMsgPtr _ num idx => let r := R idx (Some m) in if snd r then spec_ld num (fst r) else []
+      | VOpt (Some x), EMsgAlwaysVal _ num idx =>
+          match x with VEmb fs1 u1 => spec_ld num (fst (R idx (Some (fs1, u1)))) | _ => [] end
       | _, _ => []
       end
   | EUnrec => un
@@ -109,6 +112,9 @@ Definition op_ok (fs : list val) (op : eop) : bool :=
   | EMsgPresent slot num idx =>
       valid_number num && sub_ok idx (opt_of_msg (slot_get fs slot)) && lenb (fst (R idx (opt_of_msg (slot_get fs slot)))) &&
       match slot_get fs slot with VEmb _ _ => true | _ => false end                     (* T *)
+  | EMsgAlwaysVal slot num idx =>                                                       (* only emitted inside EOneof *)
+      valid_number num && sub_ok idx (opt_of_msg (slot_get fs slot)) && lenb (fst (R idx (opt_of_msg (slot_get fs slot)))) &&
+      match slot_get fs slot with VEmb _ _ => true | _ => false end
   | EMsgRepPtr slot num idx =>
       valid_number num &&
       match slot_get fs slot with
@@ -145,6 +151,9 @@ Definition op_ok (fs : list val) (op : eop) : bool :=
       | VOpt (Some x), ECast c _ _ _ num => valid_number num && cast_elem_ok c x &&
             match c, x with CastMap kk vk, VMap l => forallb (fun e => lenb (sp_scalar kk false 1 (fst e) ++ sp_scalar vk false 2 (snd e))) l | _, _ => true end
       | VMsg (Some m), EMsgPtr _ num idx => valid_number num && sub_ok idx (Some m) && lenb (fst (R idx (Some m)))
+      | VOpt (Some x), EMsgAlwaysVal _ num idx =>
+          match x with VEmb fs1 u1 => valid_number num && sub_ok idx (Some (fs1, u1)) && lenb (fst (R idx (Some (fs1, u1)))) | _ => false end
+      | VOpt None, EMsgAlwaysVal _ _ _ => true
       | VOpt None, (EScalar _ _ _ _ _ _ | EEnum _ _ _ | ECast _ _ _ _ _) => true      (* another member, or none, selected *)
       | VMsg None, EMsgPtr _ _ _ => true
       | _, _ => false
